@@ -140,9 +140,11 @@ structure Flds where
   s : Int
   ns : Int
 
+/-- the fields `Format::parse` stores: a four-digit year and every other field within `Token::value_ok`
+    (month 0..13, day 0..31, hour 0..23, minute 0..59, second 0..60) — NOT yet a valid date or time -/
 def Flds.InRange (F : Flds) : Prop :=
-  0 ≤ F.y ∧ F.y ≤ 9999 ∧ 1 ≤ F.mo ∧ F.mo ≤ 12 ∧ 1 ≤ F.d ∧ F.d ≤ 31 ∧ 0 ≤ F.h ∧ F.h < 24 ∧
-  0 ≤ F.mi ∧ F.mi < 60 ∧ 0 ≤ F.s ∧ F.s < 60 ∧ 0 ≤ F.ns ∧ F.ns < 1000000000
+  0 ≤ F.y ∧ F.y ≤ 9999 ∧ 0 ≤ F.mo ∧ F.mo ≤ 13 ∧ 0 ≤ F.d ∧ F.d ≤ 31 ∧ 0 ≤ F.h ∧ F.h < 24 ∧
+  0 ≤ F.mi ∧ F.mi < 60 ∧ 0 ≤ F.s ∧ F.s ≤ 60 ∧ 0 ≤ F.ns ∧ F.ns < 1000000000
 
 def isNum7 : Token → Bool
   | .Year | .Month | .Day | .Hour | .Minute | .Second | .Subsecond => true
@@ -228,6 +230,82 @@ theorem numText_spec (F : Flds) (hF : F.InRange) (it : Item) (h7 : isNum7 it.tok
     intro O st
     have : 0 ≤ F.ns := by omega
     simp [tokBytes, store, c, a, Token.valueOk, storeFld, this]
+
+/-- fields the formatter's widths hold: a four-digit year, two digits for month … second, nine for the
+    nanoseconds — ANY such values, valid or not -/
+def Flds.Printable (F : Flds) : Prop :=
+  0 ≤ F.y ∧ F.y ≤ 9999 ∧ 0 ≤ F.mo ∧ F.mo ≤ 99 ∧ 0 ≤ F.d ∧ F.d ≤ 99 ∧ 0 ≤ F.h ∧ F.h ≤ 99 ∧
+  0 ≤ F.mi ∧ F.mi ≤ 99 ∧ 0 ≤ F.s ∧ F.s ≤ 99 ∧ 0 ≤ F.ns ∧ F.ns < 1000000000
+
+theorem Flds.InRange.printable {F : Flds} (h : F.InRange) : F.Printable := by
+  unfold Flds.InRange at h; unfold Flds.Printable; omega
+
+/-- the field of the token fails `Token::value_ok` (month > 13, day > 31, hour > 23, minute > 59, second > 60) -/
+def Flds.bad (F : Flds) : Token → Bool
+  | .Month => decide (F.mo > 13)
+  | .Day => decide (F.d > 31)
+  | .Hour => decide (F.h > 23)
+  | .Minute => decide (F.mi > 59)
+  | .Second => decide (F.s > 60)
+  | _ => false
+
+/-- the text of a numeric token for ANY printable field: at least two ASCII digits -/
+theorem numText_digits (F : Flds) (hP : F.Printable) (it : Item) (h7 : isNum7 it.token = true) :
+    2 ≤ (numText F it).length ∧ (∀ c ∈ numText F it, isDigitC c) := by
+  unfold Flds.Printable at hP
+  unfold numText
+  cases ht : it.token <;> simp [isNum7, ht] at h7
+  case Year =>
+    obtain ⟨a, b, _⟩ := fmtInt_digits 4 F.y (by omega) (by simp; omega) (by omega) (by omega)
+    exact ⟨by simp [tokBytes, a], by simpa [tokBytes] using b⟩
+  case Month =>
+    obtain ⟨a, b, _⟩ := fmtInt_digits 2 F.mo (by omega) (by simp; omega) (by omega) (by omega)
+    exact ⟨by simp [tokBytes, a], by simpa [tokBytes] using b⟩
+  case Day =>
+    obtain ⟨a, b, _⟩ := fmtInt_digits 2 F.d (by omega) (by simp; omega) (by omega) (by omega)
+    exact ⟨by simp [tokBytes, a], by simpa [tokBytes] using b⟩
+  case Hour =>
+    obtain ⟨a, b, _⟩ := fmtInt_digits 2 F.h (by omega) (by simp; omega) (by omega) (by omega)
+    exact ⟨by simp [tokBytes, a], by simpa [tokBytes] using b⟩
+  case Minute =>
+    obtain ⟨a, b, _⟩ := fmtInt_digits 2 F.mi (by omega) (by simp; omega) (by omega) (by omega)
+    exact ⟨by simp [tokBytes, a], by simpa [tokBytes] using b⟩
+  case Second =>
+    obtain ⟨a, b, _⟩ := fmtInt_digits 2 F.s (by omega) (by simp; omega) (by omega) (by omega)
+    exact ⟨by simp [tokBytes, a], by simpa [tokBytes] using b⟩
+  case Subsecond =>
+    obtain ⟨a, b, _⟩ := fmtInt_digits 9 F.ns (by omega) (by simp; omega) (by omega) (by omega)
+    exact ⟨by simp [tokBytes, a], by simpa [tokBytes] using b⟩
+
+/-- a field beyond `value_ok` is read back as its number and refused by `store` -/
+theorem store_bad (F : Flds) (hP : F.Printable) (it : Item) (hb : F.bad it.token = true) (O : Oracles) (st : St) :
+    store O it.token (numText F it) (numText F it).length st = .err := by
+  unfold Flds.Printable at hP
+  unfold numText
+  cases ht : it.token <;> simp [Flds.bad, ht] at hb
+  case Month =>
+    obtain ⟨_, _, c⟩ := fmtInt_digits 2 F.mo (by omega) (by simp; omega) (by omega) (by omega)
+    have : ¬ (0 ≤ F.mo ∧ F.mo ≤ 13) := by omega
+    simp [tokBytes, store, c, Token.valueOk, this]
+  case Day =>
+    obtain ⟨_, _, c⟩ := fmtInt_digits 2 F.d (by omega) (by simp; omega) (by omega) (by omega)
+    have : ¬ (0 ≤ F.d ∧ F.d ≤ 31) := by omega
+    simp [tokBytes, store, c, Token.valueOk, this]
+  case Hour =>
+    obtain ⟨_, _, c⟩ := fmtInt_digits 2 F.h (by omega) (by simp; omega) (by omega) (by omega)
+    have : ¬ (0 ≤ F.h ∧ F.h ≤ 23) := by omega
+    simp [tokBytes, store, c, Token.valueOk, this]
+  case Minute =>
+    obtain ⟨_, _, c⟩ := fmtInt_digits 2 F.mi (by omega) (by simp; omega) (by omega) (by omega)
+    have : ¬ (0 ≤ F.mi ∧ F.mi ≤ 59) := by omega
+    simp [tokBytes, store, c, Token.valueOk, this]
+  case Second =>
+    obtain ⟨_, _, c⟩ := fmtInt_digits 2 F.s (by omega) (by simp; omega) (by omega) (by omega)
+    have : ¬ (0 ≤ F.s ∧ F.s ≤ 60) := by omega
+    simp [tokBytes, store, c, Token.valueOk, this]
+
+theorem bad_num7 (F : Flds) (t : Token) (h : F.bad t = true) : isNum7 t = true := by
+  cases t <;> simp [Flds.bad] at h <;> rfl
 
 /-! ### single steps of the loop on the formatter's text -/
 
@@ -358,6 +436,85 @@ theorem step_last (O : Oracles) (f : Format) (s : List Nat) (len c idx : Nat) (s
   rw [hn, htok, hstore]
   simp only [Bool.false_eq_true, if_false]
   rw [if_neg (by rw [(storeFld_frame _ _ _).1]; simp only; exact hoh), if_neg (by intro h; omega), hcur]
+
+/-- the end of a numeric field whose value `value_ok` refuses, at its first separator: an error -/
+theorem step_sep1_err (O : Oracles) (f : Format) (s : List Nat) (len a idx : Nat) (st : St) (F : Flds)
+    (it it2 : Item) (pre post : List Nat)
+    (hs : s = pre ++ (numText F it ++ post)) (hpre : Ascii pre) (hP : F.Printable)
+    (hb : F.bad it.token = true)
+    (hcur : st.cur = it) (htok : st.tok = it.token) (hprev : st.prevIdx = pre.length)
+    (hidx : idx = pre.length + (numText F it).length)
+    (hsep : it.sep1 = some a) (ha : isNum a = false)
+    (hnext : f.items[st.curIdx + 1]? = some it2) (hlen : st.curIdx + 1 < f.items.length)
+    (h16 : f.items.length ≤ 16) :
+    stepChar O f s len a idx st = .err := by
+  have h7 := bad_num7 F it.token hb
+  obtain ⟨hl2, hdig⟩ := numText_digits F hP it h7
+  obtain ⟨hnum, hoh, hts⟩ := num7_facts it.token h7
+  have hasc : Ascii (numText F it) := fun c hc => by have := hdig c hc; unfold isDigitC at this; omega
+  have htr : trigger len a idx st = true := by unfold trigger; simp [htok, hnum, ha]
+  unfold stepChar
+  rw [if_pos htr]
+  unfold stepBody
+  rw [if_neg (by intro h; exact hoh (htok ▸ h.1)), if_neg (by intro h; omega), if_neg (by rw [htok]; exact hts),
+    if_neg (by intro h; exact h.2 (by rw [hcur, hsep])), if_neg (by intro h; exact hoh (htok ▸ h.1))]
+  unfold stepField
+  rw [if_pos (Or.inr ⟨ha, Or.inl (by rw [htok]; exact hnum)⟩)]
+  have hsn : (st.cur.sepIsNot a && (st.cur.sep2.isNone || st.cur.sep2IsNot a)) = false := by
+    unfold Item.sepIsNot; rw [hcur, hsep]; simp
+  rw [hsn]
+  simp only [Bool.false_eq_true, if_false]
+  rw [if_neg (by omega), if_neg (by have : MAX_TOKENS = 16 := rfl; omega), hnext]
+  simp only
+  unfold afterEnd
+  simp only
+  rw [hprev, hidx, hs, slice_ascii pre (numText F it) post hpre hasc]
+  simp only
+  have hn : pre.length + (numText F it).length - pre.length = (numText F it).length := by omega
+  rw [hn, htok, store_bad F hP it hb]
+
+/-- the last character of the text, a digit of a last field whose value `value_ok` refuses: an error -/
+theorem step_last_err (O : Oracles) (f : Format) (s : List Nat) (len c idx : Nat) (st : St) (F : Flds)
+    (it : Item) (pre D' : List Nat)
+    (hs : s = pre ++ (numText F it ++ [])) (hpre : Ascii pre) (hP : F.Printable) (hb : F.bad it.token = true)
+    (hD : numText F it = D' ++ [c]) (hD' : D' ≠ [])
+    (hcur : st.cur = it) (htok : st.tok = it.token) (hprev : st.prevIdx = pre.length)
+    (hidx : idx = pre.length + D'.length) (hlen : len = pre.length + D'.length + 1) :
+    stepChar O f s len c idx st = .err := by
+  have h7 := bad_num7 F it.token hb
+  obtain ⟨hl2, hdig⟩ := numText_digits F hP it h7
+  obtain ⟨hnum, hoh, hts⟩ := num7_facts it.token h7
+  have hasc : Ascii (numText F it) := fun c hc => by have := hdig c hc; unfold isDigitC at this; omega
+  have hc : isDigitC c := hdig c (by rw [hD]; simp)
+  have hcn := digit_isNum c hc
+  have hDl : (numText F it).length = D'.length + 1 := by rw [hD]; simp
+  have hD'l : 1 ≤ D'.length := by
+    cases D' with
+    | nil => exact absurd rfl hD'
+    | cons _ _ => simp
+  have htr : trigger len c idx st = true := by
+    unfold trigger
+    have : idx + 1 = len := by omega
+    simp [this]
+  unfold stepChar
+  rw [if_pos htr]
+  unfold stepBody
+  rw [if_neg (by intro h; exact hoh (htok ▸ h.1)), if_neg (by intro h; omega), if_neg (by rw [htok]; exact hts),
+    if_neg (by intro h; unfold isDigitC at hc; omega), if_neg (by intro h; exact hoh (htok ▸ h.1))]
+  unfold stepField
+  have hno : ¬ (idx + 1 ≠ len ∨ (isNum c = false ∧ (st.tok.isNumeric = true ∨ st.cur.sep1 = some c))) := by
+    intro h
+    rcases h with h | h
+    · omega
+    · rw [hcn] at h; exact absurd h.1 (by decide)
+  rw [if_neg hno]
+  unfold afterEnd
+  simp only
+  have hi1 : idx + 1 = pre.length + (numText F it).length := by omega
+  rw [hprev, hi1, hs, slice_ascii pre (numText F it) [] hpre hasc]
+  simp only
+  have hn : pre.length + (numText F it).length - pre.length = (numText F it).length := by omega
+  rw [hn, htok, store_bad F hP it hb]
 
 /-! ### the loop over the items -/
 
@@ -565,7 +722,10 @@ theorem concatItems_congr (T T' : Item → List Nat) : ∀ (items : List Item), 
     simp only [concatItems]
     rw [h it (by simp), concatItems_congr T T' (it2 :: r) (fun i hi => h i (List.mem_cons_of_mem _ hi))]
 
-theorem concatItems_shape (F : Flds) (hF : F.InRange) : ∀ (items : List Item), items ≠ [] →
+theorem numText_asciiP (F : Flds) (hP : F.Printable) (it : Item) (h7 : isNum7 it.token = true) : Ascii (numText F it) :=
+  fun c hc => by have := (numText_digits F hP it h7).2 c hc; unfold isDigitC at this; omega
+
+theorem concatItems_shapeP (F : Flds) (hP : F.Printable) : ∀ (items : List Item), items ≠ [] →
     (∀ it ∈ items, isNum7 it.token = true) → (∀ it ∈ items.dropLast, GoodSep it) →
     Ascii (concatItems (numText F) items) ∧
     (∃ c post, isDigitC c ∧ concatItems (numText F) items = c :: post) ∧
@@ -573,9 +733,9 @@ theorem concatItems_shape (F : Flds) (hF : F.InRange) : ∀ (items : List Item),
   | [], h, _, _ => absurd rfl h
   | [it], _, h7, _ => by
     have h7i := h7 it (by simp)
-    obtain ⟨hl2, hdig, _, _⟩ := numText_spec F hF it h7i
+    obtain ⟨hl2, hdig⟩ := numText_digits F hP it h7i
     simp only [concatItems]
-    refine ⟨numText_ascii F hF it h7i, ?_, ?_⟩
+    refine ⟨numText_asciiP F hP it h7i, ?_, ?_⟩
     · cases hD : numText F it with
       | nil => rw [hD] at hl2; simp at hl2
       | cons c post => exact ⟨c, post, hdig c (by rw [hD]; simp), rfl⟩
@@ -583,8 +743,8 @@ theorem concatItems_shape (F : Flds) (hF : F.InRange) : ∀ (items : List Item),
       exact ⟨D', c, hdig c (by rw [hD]; simp), hD⟩
   | it :: it2 :: r, _, h7, hgood => by
     have h7i := h7 it (by simp)
-    obtain ⟨hl2, hdig, _, _⟩ := numText_spec F hF it h7i
-    obtain ⟨ih1, _, ⟨pre, c, hc, hlast⟩⟩ := concatItems_shape F hF (it2 :: r) (by simp)
+    obtain ⟨hl2, hdig⟩ := numText_digits F hP it h7i
+    obtain ⟨ih1, _, ⟨pre, c, hc, hlast⟩⟩ := concatItems_shapeP F hP (it2 :: r) (by simp)
       (fun i hi => h7 i (List.mem_cons_of_mem _ hi)) (fun i hi => hgood i (List.mem_cons_of_mem _ hi))
     obtain ⟨a, hsa, _, ha128, hsep2⟩ := hgood it (by simp [List.dropLast])
     have hsepA : Ascii it.sepText := by
@@ -598,7 +758,7 @@ theorem concatItems_shape (F : Flds) (hF : F.InRange) : ∀ (items : List Item),
     · intro x hx
       simp only [List.mem_append] at hx
       rcases hx with (hx | hx) | hx
-      · exact numText_ascii F hF it h7i x hx
+      · exact numText_asciiP F hP it h7i x hx
       · exact hsepA x hx
       · exact ih1 x hx
     · cases hD : numText F it with
@@ -606,6 +766,13 @@ theorem concatItems_shape (F : Flds) (hF : F.InRange) : ∀ (items : List Item),
       | cons c0 post =>
         exact ⟨c0, post ++ (it.sepText ++ concatItems (numText F) (it2 :: r)), hdig c0 (by rw [hD]; simp), by simp⟩
     · exact ⟨numText F it ++ it.sepText ++ pre, c, hc, by rw [hlast]; simp [List.append_assoc]⟩
+
+theorem concatItems_shape (F : Flds) (hF : F.InRange) (items : List Item) (hne : items ≠ [])
+    (h7 : ∀ it ∈ items, isNum7 it.token = true) (hgood : ∀ it ∈ items.dropLast, GoodSep it) :
+    Ascii (concatItems (numText F) items) ∧
+    (∃ c post, isDigitC c ∧ concatItems (numText F) items = c :: post) ∧
+    (∃ pre c, isDigitC c ∧ concatItems (numText F) items = pre ++ [c]) :=
+  concatItems_shapeP F hF.printable items hne h7 hgood
 
 /-! ### parse back -/
 
@@ -1739,6 +1906,257 @@ theorem parse_back_numZClass (O : Oracles) (f : Format) (e : Ep) (off : Dur) (hc
     have : t ∈ [Token.Year, .Month, .Day, .Hour, .Minute, .Second, .Subsecond] := by
       cases t <;> simp [isNum7] at ht <;> simp
     have := h6 t this
+    simp only [List.any_eq_true, beq_iff_eq] at this
+    obtain ⟨it, hi, he⟩ := this
+    exact List.mem_map.mpr ⟨it, hi, he⟩
+
+/-! ### what `Format::parse` answers on ANY printed fields (numeric class): accept / reject -/
+
+/-- the fields with those `value_ok` refuses set to zero (a device of the proof: the items in front of the
+    first refused field are read as if every field were storable) -/
+def Flds.fix (F : Flds) : Flds :=
+  ⟨F.y, if F.mo > 13 then 0 else F.mo, if F.d > 31 then 0 else F.d, if F.h > 23 then 0 else F.h,
+   if F.mi > 59 then 0 else F.mi, if F.s > 60 then 0 else F.s, F.ns⟩
+
+theorem Flds.fix_inRange (F : Flds) (hP : F.Printable) : F.fix.InRange := by
+  unfold Flds.Printable at hP
+  unfold Flds.InRange Flds.fix
+  simp only
+  refine ⟨by omega, by omega, ?_, ?_, ?_, ?_, ?_, ?_, ?_, ?_, ?_, ?_, by omega, by omega⟩ <;> split <;> omega
+
+theorem numText_fix (F : Flds) (it : Item) (h7 : isNum7 it.token = true) (hb : F.bad it.token = false) :
+    numText F.fix it = numText F it := by
+  unfold numText Flds.fix
+  cases ht : it.token <;> simp [isNum7, ht] at h7 <;> simp [Flds.bad, ht] at hb <;>
+    first | rfl | (simp only [tokBytes]; rw [if_neg (by omega)])
+
+/-- a field `value_ok` refuses anywhere in the remaining items: the loop ends in an error -/
+theorem loop_num7_err (O : Oracles) (f : Format) (F : Flds) (hP : F.Printable) (s : List Nat)
+    (h16 : f.items.length ≤ 16) :
+    ∀ (rem done : List Item) (pre : List Nat) (st : St),
+      f.items = done ++ rem → (∀ it ∈ rem, isNum7 it.token = true) →
+      (∀ it ∈ rem.dropLast, GoodSep it) →
+      s = pre ++ concatItems (numText F) rem → Ascii pre →
+      st.curIdx = done.length → (∀ it, rem.head? = some it → st.cur = it ∧ st.tok = it.token) →
+      st.prevIdx = pre.length → (∃ it ∈ rem, F.bad it.token = true) →
+      parseLoop O f s s.length (concatItems (numText F) rem) pre.length st = .err
+  | [], _, _, _, _, _, _, _, _, _, _, _, hbad => by obtain ⟨it, hi, _⟩ := hbad; simp at hi
+  | [it], done, pre, st, hf, h7, _, hs, hpre, hci, hcur, hprev, hbad => by
+    obtain ⟨it', hi, hb⟩ := hbad
+    simp at hi; subst hi
+    have h7i := h7 it' (by simp)
+    obtain ⟨hl2, hdig⟩ := numText_digits F hP it' h7i
+    obtain ⟨hc1, hc2⟩ := hcur it' rfl
+    simp only [concatItems] at hs ⊢
+    obtain ⟨D', c, hD⟩ := exists_snoc (numText F it') (by intro h; rw [h] at hl2; simp at hl2)
+    have hDl : (numText F it').length = D'.length + 1 := by rw [hD]; simp
+    have hD'ne : D' ≠ [] := by intro h; rw [h] at hDl; simp at hDl; omega
+    have hslen : s.length = pre.length + D'.length + 1 := by rw [hs]; simp only [List.length_append]; omega
+    have hstep := step_last_err O f s s.length c (pre.length + D'.length) st F it' pre D' (by rw [hs]; simp) hpre hP hb
+      hD hD'ne hc1 hc2 hprev rfl hslen
+    rw [hD, scan_digits O f s s.length _ _ pre.length st (by rw [hc2]; exact (num7_facts _ h7i).1)
+      (fun x hx => hdig x (by rw [hD]; simp [hx])) (by omega)]
+    simp only [parseLoop]
+    rw [hstep]
+  | it :: it2 :: rest, done, pre, st, hf, h7, hgood, hs, hpre, hci, hcur, hprev, hbad => by
+    obtain ⟨hc1, hc2⟩ := hcur it rfl
+    have h7i := h7 it (by simp)
+    simp only [concatItems] at hs ⊢
+    by_cases hb : F.bad it.token = true
+    · -- the field of this item is refused at its first separator
+      obtain ⟨hl2, hdig⟩ := numText_digits F hP it h7i
+      obtain ⟨a, hsa, hna, ha128, hsep2⟩ := hgood it (by simp [List.dropLast])
+      have hnext : f.items[st.curIdx + 1]? = some it2 := by rw [hf, hci]; simp
+      have hlen : st.curIdx + 1 < f.items.length := by rw [hf, hci]; simp
+      have hsepT : ∃ t, it.sepText = a :: t := by
+        unfold Item.sepText; rw [hsa]; exact ⟨_, rfl⟩
+      obtain ⟨t, ht⟩ := hsepT
+      rw [ht] at hs ⊢
+      have hslen : pre.length + (numText F it).length < s.length := by
+        rw [hs]; simp only [List.length_append, List.length_cons]; omega
+      have hstep := step_sep1_err O f s s.length a (pre.length + (numText F it).length) st F it it2 pre
+        (a :: t ++ concatItems (numText F) (it2 :: rest)) (by rw [hs]; simp [List.append_assoc]) hpre hP hb hc1 hc2
+        hprev rfl hsa hna hnext hlen h16
+      rw [List.append_assoc, scan_digits O f s s.length _ _ pre.length st (by rw [hc2]; exact (num7_facts _ h7i).1) hdig hslen]
+      simp only [List.cons_append, parseLoop]
+      rw [hstep]
+    · -- this item is stored; the refused field comes later
+      have hb' : F.bad it.token = false := by simpa using hb
+      have hfx := numText_fix F it h7i hb'
+      obtain ⟨st1, hl1, _, hci1, hcur1, htok1, hprev1, hasc1⟩ :=
+        item_mid O f F.fix (F.fix_inRange hP) s h16 it it2 done rest pre (concatItems (numText F) (it2 :: rest)) st hf
+          h7i (h7 it2 (by simp)) (hgood it (by simp [List.dropLast])) (by rw [hfx]; exact hs) hpre hci hc1 hc2 hprev
+      rw [hfx] at hl1 hprev1 hasc1
+      rw [hl1]
+      exact loop_num7_err O f F hP s h16 (it2 :: rest) (done ++ [it]) (pre ++ numText F it ++ it.sepText) st1
+        (by rw [hf]; simp) (fun i hi => h7 i (List.mem_cons_of_mem _ hi)) (fun i hi => hgood i (List.mem_cons_of_mem _ hi))
+        (by rw [hs]; simp [List.append_assoc]) hasc1 (by rw [hci1]; simp)
+        (by intro i hi; simp at hi; subst hi; exact ⟨hcur1, htok1⟩) hprev1
+        (by
+          obtain ⟨x, hx, hxb⟩ := hbad
+          simp only [List.mem_cons] at hx
+          rcases hx with rfl | hx
+          · exact absurd hxb hb
+          · exact ⟨x, by simpa using hx, hxb⟩)
+
+/-- the text of printable fields is ASCII and `trim` leaves it alone -/
+theorem numText_trim (F : Flds) (hP : F.Printable) (items : List Item) (hne : items ≠ [])
+    (h7 : ∀ it ∈ items, isNum7 it.token = true) (hgood : ∀ it ∈ items.dropLast, GoodSep it) :
+    Ascii (concatItems (numText F) items) ∧ trim (concatItems (numText F) items) = concatItems (numText F) items := by
+  obtain ⟨hasc, ⟨c0, post, hc0, hfirst⟩, ⟨pre, c1, hc1, hlast⟩⟩ := concatItems_shapeP F hP items hne h7 hgood
+  refine ⟨hasc, ?_⟩
+  apply trim_id
+  · intro c hc; rw [hfirst] at hc; simp at hc; subst hc; exact digit_not_ws _ hc0
+  · intro c hc; rw [hlast] at hc; simp at hc; subst hc; exact digit_not_ws _ hc1
+
+/-- REJECTION, first half: a printed field beyond `Token::value_ok` (month > 13, day > 31, hour > 23,
+    minute > 59, second > 60) makes `Format::parse` return an error -/
+theorem parse_num7_bad (O : Oracles) (f : Format) (F : Flds) (hP : F.Printable)
+    (hne : f.items ≠ []) (h16 : f.items.length ≤ 16)
+    (h7 : ∀ it ∈ f.items, isNum7 it.token = true) (hgood : ∀ it ∈ f.items.dropLast, GoodSep it)
+    (hbad : ∃ it ∈ f.items, F.bad it.token = true) :
+    formatParse O f (concatItems (numText F) f.items) = .err := by
+  obtain ⟨hasc, htrim⟩ := numText_trim F hP f.items hne h7 hgood
+  cases hitems : f.items with
+  | nil => exact absurd hitems hne
+  | cons it0 rest =>
+    unfold formatParse
+    rw [hitems]
+    simp only
+    rw [← hitems, htrim, byteLen_ascii _ hasc]
+    have hl := loop_num7_err O f F hP (concatItems (numText F) f.items) h16 f.items [] [] (St.init it0)
+      (by simp) h7 hgood (by simp) (by intro c hc; simp at hc) rfl
+      (by intro i hi; rw [hitems] at hi; simp at hi; subst hi; exact ⟨rfl, rfl⟩) rfl hbad
+    simp only [List.length_nil] at hl
+    rw [hl]
+
+/-- REJECTION, second half: when every printed field passes `value_ok`, `Format::parse` reads exactly the
+    printed fields and answers what `Epoch::maybe_from_gregorian` answers on them (in UTC, zero offset) -/
+theorem parse_num7_fields (O : Oracles) (f : Format) (F : Flds) (hF : F.InRange)
+    (hne : f.items ≠ []) (h16 : f.items.length ≤ 16)
+    (h7 : ∀ it ∈ f.items, isNum7 it.token = true) (hgood : ∀ it ∈ f.items.dropLast, GoodSep it)
+    (hfull : ∀ t, isNum7 t = true → t ∈ f.items.map (·.token)) :
+    formatParse O f (concatItems (numText F) f.items) =
+      match Cal.maybeFromGregorian F.y F.mo F.d F.h F.mi F.s F.ns TS.UTC with
+      | .ok d => .ok ⟨Dur.add d ⟨0, 0⟩, TS.UTC⟩
+      | .err => .err
+      | .panic => .panic := by
+  obtain ⟨hasc, htrim⟩ := numText_trim F hF.printable f.items hne h7 hgood
+  cases hitems : f.items with
+  | nil => exact absurd hitems hne
+  | cons it0 rest =>
+    unfold formatParse
+    rw [hitems]
+    simp only
+    rw [← hitems, htrim, byteLen_ascii _ hasc]
+    obtain ⟨st', hl, hdat⟩ := loop_num7 O f F hF (concatItems (numText F) f.items) h16 f.items [] [] (St.init it0)
+      (by simp) hne h7 hgood (by simp) (by intro c hc; simp at hc) rfl
+      (by intro i hi; rw [hitems] at hi; simp at hi; subst hi; exact ⟨rfl, rfl⟩) rfl
+    simp only [List.length_nil] at hl
+    rw [hl]
+    simp only
+    rw [foldFlds_data_eq] at hdat
+    rw [if_pos (hfull .Year rfl), if_pos (hfull .Month rfl), if_pos (hfull .Day rfl), if_pos (hfull .Hour rfl),
+      if_pos (hfull .Minute rfl), if_pos (hfull .Second rfl), if_pos (hfull .Subsecond rfl)] at hdat
+    have hfin : finish st' = finish ⟨F.y, F.mo, F.d, F.h, F.mi, F.s, F.ns, 0, 0, TS.UTC, false, none, none, 0, 0, it0, it0.token, it0⟩ :=
+      finish_data _ _ (by rw [hdat]; rfl)
+    rw [hfin]
+    unfold Flds.InRange at hF
+    unfold finish buildEpoch
+    simp only
+    have u1 : toU8 F.mo = some F.mo := by unfold toU8; rw [if_pos (by omega)]
+    have u2 : toU8 F.d = some F.d := by unfold toU8; rw [if_pos (by omega)]
+    have u3 : toU8 F.h = some F.h := by unfold toU8; rw [if_pos (by omega)]
+    have u4 : toU8 F.mi = some F.mi := by unfold toU8; rw [if_pos (by omega)]
+    have u5 : toU8 F.s = some F.s := by unfold toU8; rw [if_pos (by omega)]
+    have u6 : toU32 F.ns = some F.ns := by unfold toU32; rw [if_pos (by omega)]
+    rw [u1, u2, u3, u4, u5, u6]
+    simp only
+    cases Cal.maybeFromGregorian F.y F.mo F.d F.h F.mi F.s F.ns TS.UTC with
+    | ok d =>
+      simp only [Bool.false_eq_true, if_false]
+      rw [tz_zero]
+    | err => rfl
+    | panic => rfl
+
+/-- `Format::parse` on printed fields IS `Epoch::maybe_from_gregorian` on those fields.  `f`: any format of the
+    numeric class; the fields: ANY values the formatter's widths hold (year 0..9999, month, day, hour, minute,
+    second 0..99, nanoseconds below 10⁹) — valid or not — except hour 24, which `value_ok` refuses while
+    `is_gregorian_valid` lets it through (`parse_num7_hour24`).  No D10 hypothesis: 30 February of a leap year
+    is accepted by both sides. -/
+theorem parse_num7_is_from_gregorian (O : Oracles) (f : Format) (F : Flds) (hP : F.Printable)
+    (hne : f.items ≠ []) (h16 : f.items.length ≤ 16)
+    (h7 : ∀ it ∈ f.items, isNum7 it.token = true) (hgood : ∀ it ∈ f.items.dropLast, GoodSep it)
+    (hfull : ∀ t, isNum7 t = true → t ∈ f.items.map (·.token)) (h24 : F.h ≠ 24) :
+    formatParse O f (concatItems (numText F) f.items) =
+      match Cal.maybeFromGregorian F.y F.mo F.d F.h F.mi F.s F.ns TS.UTC with
+      | .ok d => .ok ⟨d, TS.UTC⟩
+      | .err => .err
+      | .panic => .panic := by
+  have hP' := hP
+  unfold Flds.Printable at hP'
+  have hy : -3000000 ≤ F.y ∧ F.y ≤ 3000000 := by omega
+  rw [Cal.maybeFromGregorian_eq F.y F.mo F.d F.h F.mi F.s F.ns TS.UTC hy]
+  by_cases hb : ∃ it ∈ f.items, F.bad it.token = true
+  · rw [parse_num7_bad O f F hP hne h16 h7 hgood hb]
+    have hv : Cal.isGregorianValidCore F.y F.mo F.d F.h F.mi F.s F.ns = false := by
+      cases hvc : Cal.isGregorianValidCore F.y F.mo F.d F.h F.mi F.s F.ns with
+      | false => rfl
+      | true =>
+        exfalso
+        have hr := Cal.validCore_ranges F.y F.mo F.d F.h F.mi F.s F.ns (by omega) (by omega) hvc
+        obtain ⟨it, _, hbt⟩ := hb
+        cases ht : it.token <;> simp [Flds.bad, ht] at hbt <;> omega
+    rw [if_pos hv]
+  · have hnb : ∀ t, isNum7 t = true → F.bad t = false := fun t ht => by
+      obtain ⟨it, hi, he⟩ := List.mem_map.mp (hfull t ht)
+      cases hbt : F.bad t with
+      | false => rfl
+      | true => exact absurd ⟨it, hi, by rw [he]; exact hbt⟩ hb
+    have b1 := hnb .Month rfl
+    have b2 := hnb .Day rfl
+    have b3 := hnb .Hour rfl
+    have b4 := hnb .Minute rfl
+    have b5 := hnb .Second rfl
+    simp only [Flds.bad, decide_eq_false_iff_not] at b1 b2 b3 b4 b5
+    have hF : F.InRange := by unfold Flds.InRange; omega
+    rw [parse_num7_fields O f F hF hne h16 h7 hgood hfull, Cal.maybeFromGregorian_eq F.y F.mo F.d F.h F.mi F.s F.ns TS.UTC hy]
+    by_cases hv : Cal.isGregorianValidCore F.y F.mo F.d F.h F.mi F.s F.ns = false
+    · rw [if_pos hv]
+    · rw [if_neg hv]
+      simp only
+      have hvt : Cal.isGregorianValidCore F.y F.mo F.d F.h F.mi F.s F.ns = true := by
+        cases h : Cal.isGregorianValidCore F.y F.mo F.d F.h F.mi F.s F.ns with
+        | false => exact absurd h hv
+        | true => rfl
+      have hr := Cal.validCore_ranges F.y F.mo F.d F.h F.mi F.s F.ns (by omega) (by omega) hvt
+      have hc := (Cal.gregFinish_val F.y F.mo F.d F.h F.mi F.s F.ns TS.UTC hy ⟨hr.1, hr.2.1⟩ ⟨hr.2.2.1, hr.2.2.2.1⟩
+        (by omega) (by omega) (by omega) (by omega)).1
+      rw [add_zero_canon _ hc]
+
+/-- hour 24 (which the property leaves open) is refused by `Format::parse` -/
+theorem parse_num7_hour24 (O : Oracles) (f : Format) (F : Flds) (hP : F.Printable)
+    (hne : f.items ≠ []) (h16 : f.items.length ≤ 16)
+    (h7 : ∀ it ∈ f.items, isNum7 it.token = true) (hgood : ∀ it ∈ f.items.dropLast, GoodSep it)
+    (hfull : ∀ t, isNum7 t = true → t ∈ f.items.map (·.token)) (h24 : F.h = 24) :
+    formatParse O f (concatItems (numText F) f.items) = .err := by
+  apply parse_num7_bad O f F hP hne h16 h7 hgood
+  obtain ⟨it, hi, he⟩ := List.mem_map.mp (hfull .Hour rfl)
+  exact ⟨it, hi, by rw [he]; simp [Flds.bad, h24]⟩
+
+/-- the hypotheses of the lemmas above from the decidable class -/
+theorem numClass_hyps (f : Format) (hc : numClass f = true) :
+    f.items ≠ [] ∧ f.items.length ≤ 16 ∧ (∀ it ∈ f.items, isNum7 it.token = true) ∧
+    (∀ it ∈ f.items.dropLast, GoodSep it) ∧ (∀ t, isNum7 t = true → t ∈ f.items.map (·.token)) := by
+  unfold numClass at hc
+  simp only [Bool.and_eq_true, List.all_eq_true, decide_eq_true_eq, Bool.not_eq_true'] at hc
+  obtain ⟨⟨⟨⟨h1, h2⟩, h3⟩, h4⟩, h5⟩ := hc
+  refine ⟨?_, h2, fun it hi => (h3 it hi).1, fun it hi => goodSepB_iff it (h4 it hi), ?_⟩
+  · intro h; rw [h] at h1; simp at h1
+  · intro t ht
+    have : t ∈ [Token.Year, .Month, .Day, .Hour, .Minute, .Second, .Subsecond] := by
+      cases t <;> simp [isNum7] at ht <;> simp
+    have := h5 t this
     simp only [List.any_eq_true, beq_iff_eq] at this
     obtain ⟨it, hi, he⟩ := this
     exact List.mem_map.mpr ⟨it, hi, he⟩
